@@ -41,6 +41,21 @@ CHECKS = {
          "Validate is run on the complete table of key types (RSA, EC on three curves, OKP, oct; private and public) x every algorithm value the JOSE library registers (signature, key-encryption, content-encryption), unknown/empty/case-variant names and a missing algorithm, plus structurally invalid keys; generated pairs for the three approved algorithms must validate and verify only on the diagonal of the sign/verify matrix; LoadKey is driven with random key-set files (0-4 members, valid/invalid, unique/duplicate/missing ids) x requested ids and malformed inputs, identity decided by thumbprint. The table is a complete enumeration.",
          "Trusts the JOSE library for signature verification itself and for key.Validate(); which member wins for duplicated ids is not asserted.",
          "DESIGN.md §2 C18"),
+ "C03": ("exploration",
+         "reference-model monitor: independent normaliser on the generator's tree vs JSON/YAML marshalling of the parsed pipeline read back with independent readers",
+         "Grammar-generated pipeline documents (every step kind and shorthand, feature sweeps over all key/alias subsets, command/commands form pairs, plugin/matrix/cache forms, arbitrary extras of every YAML scalar kind, tricky strings, aliases and merges) are rendered as JSON and as YAML in random styles (renderer self-checked against yaml.v3's Node reader), parsed, marshalled to both formats, read back with encoding/json's token stream and yaml.Node, and compared with the normal form computed by an independently written normaliser; the key multiset of every mapping must match exactly, so dropped, duplicated, re-typed or moved data is detected. Held on the documents generated.",
+         "Trusts the normaliser as the reading of the documented normal form (decisions where the model follows the code are listed in DESIGN.md), yaml.v3's parser for rendering self-checks, and the value equivalences of DESIGN.md §1.2; input classes K1, K3, K4 are excluded and replayed as known findings.",
+         "DESIGN.md §2 C03"),
+ "C08": ("exploration",
+         "reference-model monitor: document key order (merge resolver for merged keys) vs key sequences of both marshallings at every order-preserving position; encode/decode round trips of programmatic maps",
+         "Documents aimed at order-preserving positions (pipeline env, plugins as one mapping, mappings nested in extras/contents of every step kind and of the pipeline, unknown steps) with 0-300 keys of every key class, nesting and `<<` merges are parsed and marshalled; key sequences read back with independent readers must equal the generator's order. Programmatically built ordered maps must survive JSON and YAML encode/decode with ordered.Equal and tree equality. Held on the executions observed.",
+         "Order at Go-map-backed levels and inside plugin configs is deliberately not significant; K4 (key <<) is replayed as a known finding.",
+         "DESIGN.md §2 C08"),
+ "C09": ("exploration",
+         "metamorphic monitor: parse -> marshal -> parse fixpoint compared on the object model through an independent reflective converter; repeated marshals compared bytewise",
+         "For grammar-generated documents the JSON and the YAML marshalling of the parsed pipeline are re-parsed and the two object models compared structurally (dynamic step types, every exported field, ordered maps in order); every command step goes through CommandStep.UnmarshalJSON and every plugin list through Plugins.UnmarshalJSON; each pipeline is marshalled 6-10 times per format and the bytes compared (maps beyond 8 entries included). Held on the documents generated.",
+         "Equivalences of DESIGN.md §1.2 (numbers by value, timestamp = RFC 3339 string, typed containers nil = empty, canonical plugin source spelling); K1-K4 replayed as known findings; F6 replayed as fixed.",
+         "DESIGN.md §2 C09"),
 }
 
 NOT_YET = {
